@@ -592,6 +592,10 @@ class CreateSolutionOp(clib.Op):
         out.append(((1, 2), ('c', 't'), ('mol', 'L'), 'g', 'mL', 'substance'))
         out.append(((1, 1), ('q', 't'), ('mol', 'L'), 'g', 'g', 'substance'))
         out.append(((1, 3), ('c', 't'), ('g', 'L'), 'g', 'mL', 'substance'))
+        # one concentration unit PER solute, with different denominators (each solute is measured against its own)
+        out.append(((1, 2), ('c', 't'), (('mol', 'L'), ('g', 'g')), 'g', 'mL', 'substance'))
+        out.append(((1, 1), ('c', 't'), (('g', 'g'), ('mol', 'L')), 'g', 'g', 'substance'))
+        out.append(((1, 3), ('c', 't'), (('mol', 'g'), ('U', 'L')), 'g', 'mL', 'substance'))
         if tier == 'thorough':
             out.append(((1, 2), ('c', 'q'), ('g', 'L'), 'g', '-', 'substance'))
             out.append(((1, 2, 1), ('q', 't'), ('mol', 'L'), 'g', 'mL', 'substance'))
@@ -607,7 +611,8 @@ class CreateSolutionOp(clib.Op):
         return out
 
     def setup(self, I, case, finite=None):
-        kinds, given, (nb, db), qunit, tunit, form = case
+        kinds, given, pair_, qunit, tunit, form = case
+        cps = pairs_of(pair_, len(kinds))
         clib.assume_world(I)
         n = len(kinds)
         solutes = [z3.Const(f'solute{i}', Sub) for i in range(n)]
@@ -632,12 +637,13 @@ class CreateSolutionOp(clib.Op):
         return solutes, solvent, other, Y, cs, qs, T
 
     def invoke(self, I, st, case):
-        kinds, given, (nb, db), qunit, tunit, form = case
+        kinds, given, pair_, qunit, tunit, form = case
+        cps = pairs_of(pair_, len(kinds))
         solutes, solvent, other, Y, cs, qs, T = st
         n = len(kinds)
         kwargs = {}
         if 'c' in given:
-            vals = [SegStr([NumHole(c), ' ', f'{nb}/{db}']) for c in cs]
+            vals = [SegStr([NumHole(c), ' ', f'{nb}/{db}']) for c, (nb, db) in zip(cs, cps)]
             kwargs['concentration'] = vals[0] if n == 1 else vals
         if 'q' in given:
             vals = []
@@ -652,7 +658,8 @@ class CreateSolutionOp(clib.Op):
         return vc.call(I, self.FN, [sol_arg, solv_arg, NameV(z3.Const('newname', Name))], kwargs)
 
     def emit(self, I, out, st, case, finite=None):
-        kinds, given, (nb, db), qunit, tunit, form = case
+        kinds, given, pair_, qunit, tunit, form = case
+        cps = pairs_of(pair_, len(kinds))
         solutes, solvent, other, Y, cs, qs, T = st
         n = len(kinds)
         allkeys = solutes + [solvent] + ([other] if form in ('container2', 'container2e') else [])
@@ -675,6 +682,7 @@ class CreateSolutionOp(clib.Op):
                      note='every named solute and the solvent are present in positive amounts')
             if 'c' in given:
                 for i, s in enumerate(solutes):
+                    nb, db = cps[i]
                     n1, d1 = conc_of(I, amt, allkeys, s, nb, db)
                     I.oblige(f'ensures[conc/{i}]', z3.And(n1 <= cs[i] * d1 * (1 + tol), n1 >= cs[i] * d1 * (1 - tol)),
                              'property', note=f'concentration of solute {i} in {nb}/{db}')
@@ -731,11 +739,12 @@ class CreateSolutionOp(clib.Op):
                                      cs + qs + [T])
 
     def replay(self, mv, st, case, fin, clause):
-        kinds, given, (nb, db), qunit, tunit, form = case
+        kinds, given, pair_, qunit, tunit, form = case
+        cps = pairs_of(pair_, len(kinds))
         solutes, solvent, other, Y, cs, qs, T = st
         try:
             inputs = {'subs': clib.model_subs(mv, solutes + [solvent, other]), 'n': len(kinds), 'kinds': list(kinds),
-                      'given': list(given), 'cunit': f'{nb}/{db}', 'qunit': qunit, 'tunit': tunit,
+                      'given': list(given), 'cunit': f'{cps[0][0]}/{cps[0][1]}', 'cunits': [f'{a}/{b}' for a, b in cps], 'qunit': qunit, 'tunit': tunit,
                       'c': [str(mv[f'c{i}']) for i in range(len(kinds))], 'q': [str(mv[f'q{i}']) for i in range(len(kinds))],
                       'T': str(mv['T']), 'Y': None if Y is None else {'contents': {str(s): str(mv[f'Y_{s}']) for s in Y.amt}, 'cap': None},
                       'clause': clause}
@@ -750,6 +759,14 @@ class CreateSolutionOp(clib.Op):
 
     def must_accept(self, case):
         return []
+
+
+def pairs_of(pair, n):
+    """concentration unit (numerator, denominator) of every solute: one pair for all, or one pair per solute"""
+    if pair and isinstance(pair[0], tuple):
+        assert len(pair) == n
+        return list(pair)
+    return [tuple(pair)] * n
 
 
 OPS['create_solution'] = CreateSolutionOp()
